@@ -258,7 +258,7 @@ func runCase(r *mon.Run, idx int) {
 }
 
 func Run(r *mon.Run) {
-	r.Rule = "each case: a fresh broker with operator channel capacity in {0,1,2,16,1024}, an output stream (unidirectional alone, with an input peer, or a bidirectional half) whose transport reader follows a PRNG script of reads (sizes 0..10000 incl. 2047/2048/2049, runs of zero-length reads, delays, terminal error EOF/unexpected EOF/closed pipe/custom/wrapped EOF alone or together with data) carrying position-coded bytes; the operator's terminal stalls on a PRNG schedule; optionally concurrent input traffic; ended by itself (natural) or by cancellation at a PRNG-chosen amount of progress. The displayed Plain chunks up to a marker line must be a prefix of the sent bytes, equal to all of them at a natural end, and none may follow the close notice. A case is non-trivial if it carried at least one byte; distinct = distinct (read script, capacity, kind, ending, stalls). " +
+	r.Rule = "each case: a fresh broker with operator channel capacity in {0,1,2,16,1024}, an output stream (unidirectional alone, with an input peer, or a bidirectional half) whose transport reader follows a PRNG script of reads (sizes 0..10000 incl. 2047/2048/2049, runs of zero-length reads, delays, terminal error EOF/unexpected EOF/closed pipe/custom/wrapped EOF alone or together with data) carrying position-coded bytes; the operator's terminal stalls on a PRNG schedule; optionally concurrent input traffic; ended by itself (natural) or by cancellation at a PRNG-chosen amount of progress. The displayed Plain chunks up to a marker line must be a prefix of the sent bytes, equal to all of them at a natural end, and none may follow the close notice. A case is non-trivial if it carried at least one byte; distinct = distinct (read script, capacity, kind, ending, stalls). Engine quiet: the stream is a series of 2-6 bursts (1 B ... 67 KiB, many of them exact multiples of the 2048-byte read size); the next burst or the end is made available only after every byte so far has been displayed (bounded progress 10 s): a shell that falls silent must not have to say more for what it said to be shown. " +
 		"Engine pty: the real binary on a pty, fake shells over raw TLS (chunked bodies) send numbered printable tokens in PRNG-sized writes; the de-escaped terminal text must show them once, in order, all of them before the close/gone notice when the stream ended by itself. " +
 		"Engine ptyb: the real binary on a pty, several shells one after the other per process, each shell's class fixed by its number: /i+/o or /io; chunked body or a body with a declared Content-Length (under 256 B, a few KiB, 64-300 KiB); a patient client (sends once the shell is reported ready) or an eager one (header and output at once, like curl -d @file); content = ASCII tokens, valid 2/3/4-byte UTF-8 characters, unfinished sequences, bytes that are never UTF-8 and arbitrary bytes (all values but ESC and CR), cut into TLS writes anywhere incl. inside a character and byte by byte; the stream ends by itself right after an unfinished multibyte sequence / after non-UTF-8 bytes / after a complete multibyte character / after ASCII, or the connection is dropped (for a declared length: before the promised length). The clean terminal text between the end of the callback help that follows the previous shell and this shell's first close/gone notice, minus the attach notices and the notice's own timestamp+address prefix, with CR LF read as LF, must equal the sent bytes exactly at a natural end and be a prefix of them after a drop; no token of the shell may appear after its notice. Bytes withheld from one shell's display would surface in the next shell's region and fail its comparison. " +
 		"Engine ptynb (environment: the terminal's open file description is non-blocking and the terminal is busy): the real binary is started on an ordinary blocking pty; after it has printed its banner (before the shell attaches, or once the shell is reported ready) the harness sets O_NONBLOCK on the pty slave it holds, i.e. on the very open file description the program has as stdin/stdout/stderr, as a sibling process sharing the terminal (ssh, a multiplexer, a wrapper) does; a patient shell on /i+/o or /io (chunked) then sends 80-200 KB of numbered tokens (long lines, short lines or both) in PRNG-sized TLS writes while the terminal is not read at all until the flood is over, or is drained in short pulses, or is read all the time; then the terminal is drained. At three moments (shell still attached; after its stream ended by itself; after Ctrl+D) the terminal text after the callback help, minus the attach notices, must be a prefix of the sent bytes (LF shown as CR LF), possibly followed by (a part of) the prompt or by text of the program that contains nothing of the shell's output; any byte of the shell shown twice, left out in the middle or out of order is a violation; so is a crash (death by signal, panic). The child's /proc/PID/fdinfo/1 confirms the non-blocking flag; sessions whose display stopped short of what was sent although the terminal was drained are counted (a terminal write was refused or taken in part) and floored"
@@ -274,6 +274,9 @@ func Run(r *mon.Run) {
 				runCase(r, i)
 			}
 		})
+	}
+	if r.WantEngine("quiet") {
+		quietCases(r)
 	}
 	if r.WantEngine("pty") {
 		ptySessions(r)
